@@ -157,6 +157,20 @@ def check_vector(v):
             if raw[0] != "ok" or raw[1][len(_header()):] != want_bytes:
                 rep("BAM records written back (%s) are not the original record bytes" % sel_name, "write-bytes-" + sel_name,
                     len(want_bytes), str(raw)[:200] if raw[0] != "ok" else len(raw[1]) - len(_header()))
+    # write back in pieces: an empty piece, then one record at a time (one header, every record once, in order)
+    out_path = os.path.join(d, "o_pieces.bam")
+
+    def pieces():
+        data = bnp.open(path).read()
+        with bnp.open(out_path, "w") as w:
+            w.write(data[0:0])
+            for i in range(len(data)):
+                w.write(data[i:i + 1])
+        return _project(bnp.open(out_path).read())
+    o = outcome(pieces)
+    n += 1
+    if o[0] != "ok" or not _same(exp, o[1]):
+        rep("BAM written back in pieces (an empty piece first) does not decode to the same records", "write-pieces", len(exp), str(o)[:300])
     import shutil
     shutil.rmtree(d, ignore_errors=True)
     return {"n": n, "nt": nt, "bad": bad}
